@@ -1410,7 +1410,82 @@ impl RestoreManager {
             computed_checksum
         );
 
+        // The checksum covers member payloads only. Member *names* decide where payloads
+        // are written, so validate them against the archive's own MANIFEST before the
+        // target directory is cleared.
+        Self::verify_archive_member_names(&backup_path, metadata)?;
+
         Ok(backup_path)
+    }
+
+    /// Reject archives whose member names are inconsistent with the MANIFEST they ship.
+    fn verify_archive_member_names(backup_path: &Path, metadata: &BackupMetadata) -> Result<()> {
+        let file = File::open(backup_path)?;
+        let mut reader = BufReader::new(file);
+        let file_count = read_archive_file_count(&mut reader)?;
+
+        let mut member_names: Vec<String> = Vec::new();
+        let mut manifest_bytes: Option<Vec<u8>> = None;
+        for _ in 0..file_count {
+            let (name, data_len) = read_archive_member_header(&mut reader)?;
+            if name == "MANIFEST" {
+                let mut payload = Vec::new();
+                stream_member_to_writer(&mut reader, &mut payload, data_len)?;
+                manifest_bytes = Some(payload);
+            } else {
+                stream_member_crc32(&mut reader, data_len)?;
+            }
+            member_names.push(name);
+        }
+
+        let Some(manifest_bytes) = manifest_bytes else {
+            // Only a full backup of a directory without MANIFEST ships no MANIFEST; such an
+            // archive consists of WAL segments only.
+            anyhow::ensure!(
+                metadata.backup_type == BackupType::Full && metadata.snapshot_file.is_none(),
+                "backup archive {} has no MANIFEST member",
+                metadata.id
+            );
+            for name in &member_names {
+                anyhow::ensure!(
+                    parse_wal_file_id(name).is_some(),
+                    "backup archive {} has no MANIFEST member and contains unexpected member '{}'",
+                    metadata.id,
+                    name
+                );
+            }
+            return Ok(());
+        };
+
+        // Legacy (non-JSON) manifests carry no segment list to validate against.
+        let Ok(manifest) = serde_json::from_slice::<Manifest>(&manifest_bytes) else {
+            return Ok(());
+        };
+
+        let mut expected: BTreeSet<&str> = manifest.wal_segments.iter().map(String::as_str).collect();
+        if let Some(snapshot) = manifest.latest_snapshot.as_deref() {
+            expected.insert(snapshot);
+        }
+        for name in &member_names {
+            anyhow::ensure!(
+                name == "MANIFEST" || expected.contains(name.as_str()),
+                "backup archive {} contains member '{}' that its MANIFEST does not reference",
+                metadata.id,
+                name
+            );
+        }
+        if metadata.backup_type == BackupType::Full {
+            for required in &expected {
+                anyhow::ensure!(
+                    member_names.iter().any(|name| name == required),
+                    "backup archive {} is missing member '{}' referenced by its MANIFEST",
+                    metadata.id,
+                    required
+                );
+            }
+        }
+
+        Ok(())
     }
 
     /// Extract a pre-verified backup archive into `data_dir`.
